@@ -2,6 +2,7 @@ SPECIFICATION TSpec
 CONSTANTS
   MaxN = 64
   MaxK = 64
+  PPChoices = {TRUE, FALSE}
   AtomicDoneRelease = FALSE
 INVARIANTS Accepted Invariants
 CHECK_DEADLOCK FALSE
